@@ -110,18 +110,18 @@ theorem scalarMult_facts :
     ∧ G.scalarMult.guards = [("checkInitialized", ["q"])]
     ∧ G.scalarMult.paramWrites = [] ∧ G.scalarMult.hazards = []
     ∧ G.scalarMult.facts = [("opaque digits", "x.signedRadix16()"),
-        ("index-checked", "digits[112-1] in [111, 111] of 112"),
-        ("index-checked", "digits[i] in [0, 110] of 112"),
-        ("loop i", "for i := 112 - 2; i >= 0; i--")] := by
+        ("index-checked", "digits in [111, 111] of 112"),
+        ("index-checked", "digits in [0, 110] of 112"),
+        ("loop 1", "from 110 down to 0")] := by
   ptops_decide "C16MulOps.scalarMult_facts"
 
 theorem scalarBaseMult_facts :
     G.scalarBaseMult.inputs = ["v", "varBasepointTable[].points", "digits"] ∧ G.scalarBaseMult.outputs = ["v"]
     ∧ G.scalarBaseMult.guards = [] ∧ G.scalarBaseMult.paramWrites = [] ∧ G.scalarBaseMult.hazards = []
-    ∧ G.scalarBaseMult.facts = [("table table", "basepointTable() = &varBasepointTable"),
+    ∧ G.scalarBaseMult.facts = [("table-func", "basepointTable() = &varBasepointTable"),
         ("opaque digits", "x.signedRadix16()"),
-        ("index-checked", "digits[i] in [1, 111] of 112"), ("loop i", "for i := 1; i < 112; i += 2"),
-        ("index-checked", "digits[i] in [0, 110] of 112"), ("loop i'", "for i := 0; i < 112; i += 2")] := by
+        ("index-checked", "digits in [1, 111] of 112"), ("loop 1", "from 1 below 112 step 2"),
+        ("index-checked", "digits in [0, 110] of 112"), ("loop 2", "from 0 below 112 step 2")] := by
   ptops_decide "C16MulOps.scalarBaseMult_facts"
 
 end C16MulOps
